@@ -2,10 +2,14 @@ package harness
 
 import (
 	"fmt"
+	"strings"
 	"testing"
 
+	"github.com/opsidian/parsley/ast"
 	"github.com/opsidian/parsley/ast/interpreter"
+	"github.com/opsidian/parsley/combinator"
 	"github.com/opsidian/parsley/data"
+	"github.com/opsidian/parsley/parser"
 	"github.com/opsidian/parsley/parsley"
 	"pgregory.net/rapid"
 )
@@ -24,7 +28,26 @@ func endsOf(ts TreeSet) bits {
 }
 
 // runC07 returns the post-return modifications and re-ask disagreements it observed.
+// c07Hard collects the differences that cannot be the known finding KF-1, whatever the ablation
+// says: a returned object whose rendering changed in anything but end positions moved forward
+// over whitespace.
+type c07Diffs struct {
+	all  []string
+	hard []string
+}
+
 func runC07(c *GCase, clone bool, st *Stats) (diffs []string, err error) {
+	d, err := runC07x(c, clone, st)
+	if d == nil {
+		return nil, err
+	}
+	return d.all, err
+}
+
+func runC07x(c *GCase, clone bool, st *Stats) (dd *c07Diffs, err error) {
+	dd = &c07Diffs{}
+	var diffs []string
+	defer func() { dd.all = diffs }()
 	g, in := c.G, c.In
 	trims := hasKind(g, KLTrim, KRTrim)
 	// Single drops a result that arrives together with an error; Optional passes its operand's error
@@ -40,7 +63,7 @@ func runC07(c *GCase, clone bool, st *Stats) (diffs []string, err error) {
 	ctx, f := NewCtx(in)
 	root, _, berr := parseGuarded(b.NT[0], ctx, data.EmptyIntMap, f.Pos(0))
 	if berr != nil {
-		return nil, fmt.Errorf("%v", berr)
+		return dd, fmt.Errorf("%v", berr)
 	}
 	for _, alt := range alternatives(root) {
 		for round := 0; round < 2; round++ {
@@ -53,7 +76,18 @@ func runC07(c *GCase, clone bool, st *Stats) (diffs []string, err error) {
 	compare := func(what string) {
 		for _, s := range probe.snaps {
 			if now := RenderResult(s.node, 1); now != s.repr {
-				diffs = append(diffs, fmt.Sprintf("%s: the result returned by %s changed after it was returned:\n was %s\n now %s", what, s.who, s.repr, now))
+				msg := fmt.Sprintf("%s: the result returned by %s changed after it was returned:\n was %s\n now %s", what, s.who, s.repr, now)
+				diffs = append(diffs, msg)
+				sh, en := shapeAndEnds(s.node, 1)
+				kf1 := sh == s.shape && len(en) == len(s.ends)
+				for i := 0; kf1 && i < len(en); i++ {
+					if en[i] < s.ends[i] || s.ends[i] < 0 || en[i] > len(in) || strings.Trim(in[s.ends[i]:en[i]], " \t\n\f") != "" {
+						kf1 = false
+					}
+				}
+				if !kf1 {
+					dd.hard = append(dd.hard, msg)
+				}
 			}
 		}
 	}
@@ -106,22 +140,158 @@ func runC07(c *GCase, clone bool, st *Stats) (diffs []string, err error) {
 			st.Class("cached list with >= 2 alternatives and >= 2 consumers")
 		}
 	}
-	return diffs, nil
+	return dd, nil
+}
+
+// renderFull renders a result with everything C07 names: token, value, children, start, end and
+// list membership (RenderNode leaves the value of a literal out).
+func renderFull(n parsley.Node, base int) string {
+	switch v := n.(type) {
+	case nil:
+		return "<nil>"
+	case ast.NodeList:
+		parts := make([]string, len(v))
+		for i, c := range v {
+			parts[i] = renderFull(c, base)
+		}
+		return "{" + strings.Join(parts, " | ") + "}"
+	case ast.EmptyNode:
+		return fmt.Sprintf("EMPTY@%d", int(v.Pos())-base)
+	case parsley.NonTerminalNode:
+		parts := make([]string, len(v.Children()))
+		for i, c := range v.Children() {
+			parts[i] = renderFull(c, base)
+		}
+		return fmt.Sprintf("%s@%d..%d[%s]", v.Token(), int(v.Pos())-base, int(v.ReaderPos())-base, strings.Join(parts, " "))
+	case parsley.LiteralNode:
+		return fmt.Sprintf("%s=%#v@%d..%d", v.Token(), v.Value(), int(v.Pos())-base, int(v.ReaderPos())-base)
+	}
+	return fmt.Sprintf("%s(%T)@%d..%d", n.Token(), n, int(n.Pos())-base, int(n.ReaderPos())-base)
+}
+
+// runC07Tokens is the literal workload: a sequence of trimmed literal tokens (strings with
+// escapes, integers, words, ...), each behind its own Memoize. Every node a token parser returns is
+// rendered with its value at return time, again after the whole sequence was parsed and evaluated
+// twice, and again after every memoized token parser was asked once more at every position it had
+// been asked at.
+func runC07Tokens(c *C10Case, st *Stats) (err error) {
+	if len(c.Toks) == 0 || len(c.Gaps) != len(c.Toks)+1 {
+		return Discard{"malformed token case"}
+	}
+	defer func() {
+		if r := recover(); r != nil {
+			err = fmt.Errorf("panic: %v", r)
+		}
+	}()
+	src := c.source()
+	type snapT struct {
+		node parsley.Node
+		repr string
+		who  string
+	}
+	var snaps []snapT
+	type askT struct {
+		p    parsley.Parser
+		pos  parsley.Pos
+		who  string
+		repr string
+	}
+	var asked []askT
+	seen := map[string]bool{}
+	parsers := make([]parsley.Parser, len(c.Toks))
+	for i, ts := range c.Toks {
+		who := fmt.Sprintf("token %d (%q)", i, ts.Text)
+		tp := tokParser(ts)
+		inner := parser.Func(func(ctx *parsley.Context, l data.IntMap, pos parsley.Pos) (parsley.Node, data.IntSet, parsley.Error) {
+			n, cp, e := tp.Parse(ctx, l, pos)
+			if n != nil {
+				snaps = append(snaps, snapT{n, renderFull(n, 1), who})
+			}
+			return n, cp, e
+		})
+		m := combinator.Memoize(inner)
+		parsers[i] = parser.Func(func(ctx *parsley.Context, l data.IntMap, pos parsley.Pos) (parsley.Node, data.IntSet, parsley.Error) {
+			n, cp, e := m.Parse(ctx, l, pos)
+			key := fmt.Sprintf("%s@%d", who, pos)
+			if !seen[key] {
+				seen[key] = true
+				asked = append(asked, askT{m, pos, who, renderFull(n, 1)})
+			}
+			return n, cp, e
+		})
+	}
+	root := combinator.SeqOf(parsers...).Bind(concatInterpAny())
+	ctx, f := NewCtx(src)
+	res, _, _ := root.Parse(ctx, data.EmptyIntMap, f.Pos(0))
+	for _, alt := range alternatives(res) {
+		for round := 0; round < 2; round++ {
+			func() {
+				defer func() { _ = recover() }() // a node without interpreter refuses; it must not be changed
+				_, _ = parsley.EvaluateNode(nil, alt)
+			}()
+		}
+	}
+	compare := func(when string) error {
+		for _, s := range snaps {
+			if now := renderFull(s.node, 1); now != s.repr {
+				return fmt.Errorf("%s: the result returned by %s changed after it was returned:\n was %s\n now %s", when, s.who, s.repr, now)
+			}
+		}
+		return nil
+	}
+	if err := compare("after the parse and two evaluations"); err != nil {
+		return err
+	}
+	for _, a := range asked {
+		n, _, _ := a.p.Parse(ctx, data.EmptyIntMap, a.pos)
+		if now := renderFull(n, 1); now != a.repr {
+			return fmt.Errorf("asking the memoized %s again at position %d gives another answer:\n first %s\n again %s", a.who, int(a.pos)-1, a.repr, now)
+		}
+	}
+	if err := compare("after asking every memoized token again"); err != nil {
+		return err
+	}
+	st.Class("literal token workload")
+	escapes := 0
+	for _, ts := range c.Toks {
+		if ts.Kind == 4 && (strings.Contains(ts.Text, "\\") || !isASCII(ts.Text)) {
+			escapes++
+		}
+	}
+	if len(snaps) >= 2 {
+		st.NonTrivial()
+	}
+	if escapes >= 2 {
+		st.Class("literal token workload with >= 2 string literals that need unquoting")
+	}
+	return nil
 }
 
 func checkC07(ci interface{}, st *Stats) error {
 	c := ci.(*GCase)
+	if c.Toks != nil {
+		return runC07Tokens(c.Toks, st)
+	}
+	if c.G == nil {
+		return Discard{"no grammar"}
+	}
 	c.G.number()
 	hasRTrim := hasKind(c.G, KRTrim)
 	if hasKind(c.G, KLTrim, KRTrim) {
 		st.Class("grammar with LeftTrim/RightTrim")
 	}
-	diffs, err := runC07(c, false, st)
+	dd, err := runC07x(c, false, st)
 	if err != nil {
 		return err
 	}
+	diffs := dd.all
 	if len(diffs) == 0 {
 		return nil
+	}
+	if len(dd.hard) > 0 {
+		// more than an end position moved forward over whitespace: this cannot be KF-1, with or
+		// without RightTrim in the grammar
+		return fmt.Errorf("%s\n(%d differences in total, %d of them change more than an end position moved over whitespace)", dd.hard[0], len(diffs), len(dd.hard))
 	}
 	if !hasRTrim {
 		return fmt.Errorf("%s\n(%d differences in total)", diffs[0], len(diffs))
@@ -147,6 +317,9 @@ func init() {
 		ID:      "C07",
 		NewCase: func() interface{} { return &GCase{} },
 		Gen: func(t *rapid.T) interface{} {
+			if rapid.IntRange(0, 7).Draw(t, "tokens") == 3 {
+				return &GCase{Toks: genC10(t).(*C10Case)}
+			}
 			o := GenOpts{MaxNT: 3, MaxDepth: 3, Alphabet: "ab", NonMono: true, MaxInput: 6, Skeleton: rapid.Bool().Draw(t, "skeleton"), Share: true, ExtraMemo: 4, SeqOpts: true, Single: rapid.IntRange(0, 3).Draw(t, "single") == 0}
 			if thorough() {
 				o.MaxNT, o.MaxInput = 4, 8
